@@ -2,6 +2,8 @@
 from __future__ import annotations
 
 import ast
+
+import sympy as sp
 from typing import Dict, List, Optional, Set, Tuple
 
 from ..astutil import call_name, calls_in, own_nodes, unparse, kwarg, names_loaded, dotted
@@ -216,48 +218,93 @@ def _class_defaults(prog: Program, c: Class) -> Dict[str, object]:
     return {k: v for k, v in out.items() if k in attrs}
 
 
-def _eval_ladder(stmts, env: Dict[str, object], dname: str):
-    """Evaluate the dispatcher's if-ladder on concrete key values; returns constructed class name or 'raise'."""
-    for st in stmts:
-        if isinstance(st, ast.If):
-            v = _eval_test(st.test, env, dname)
-            r = _eval_ladder(st.body if v else st.orelse, env, dname)
-            if r is not None:
-                return r
-        elif isinstance(st, ast.Assign) and isinstance(st.value, ast.Call) and isinstance(st.value.func, ast.Name):
-            return st.value.func.id
-        elif isinstance(st, ast.Raise):
-            return "raise"
-    return None
+class _Raise(Exception):
+    pass
 
 
-def _eval_test(t: ast.AST, env, dname):
-    if isinstance(t, ast.Compare) and len(t.ops) == 1:
-        l, op, r = t.left, t.ops[0], t.comparators[0]
-        if isinstance(op, (ast.In, ast.NotIn)) and isinstance(l, ast.Constant):
-            base = r.func.value if isinstance(r, ast.Call) and call_name(r) == "keys" else r
-            if isinstance(base, ast.Name) and base.id == dname:
-                v = l.value in env
-                return v if isinstance(op, ast.In) else not v
-        if isinstance(op, (ast.Eq, ast.NotEq)):
-            def val(x):
-                if isinstance(x, ast.Constant):
-                    return x.value
-                if isinstance(x, ast.Subscript) and isinstance(x.value, ast.Name) and x.value.id == dname and isinstance(x.slice, ast.Constant):
-                    if x.slice.value not in env:
-                        raise KeyError(x.slice.value)
-                    return env[x.slice.value]
-                if isinstance(x, ast.Call) and call_name(x) == "get" and x.args and isinstance(x.args[0], ast.Constant):
-                    return env.get(x.args[0].value)
-                raise AnalysisError(f"dispatcher: cannot evaluate `{unparse(x)}`")
-            v = val(l) == val(r)
-            return v if isinstance(op, ast.Eq) else not v
-    if isinstance(t, ast.BoolOp):
-        vals = [_eval_test(v, env, dname) for v in t.values]
-        return all(vals) if isinstance(t.op, ast.And) else any(vals)
-    if isinstance(t, ast.UnaryOp) and isinstance(t.op, ast.Not):
-        return not _eval_test(t.operand, env, dname)
-    raise AnalysisError(f"dispatcher: unsupported test `{unparse(t)}`")
+class _Dispatch:
+    """Evaluation of the dispatcher's decision ladder on a finite domain: the file content is the dict of the saved
+    method keys of one settings class; locals may hold the dict, its key view, constants, classes and constructed objects."""
+
+    def __init__(self, prog: Program, dname: str, content: Dict[str, object]):
+        self.prog, self.dname, self.content = prog, dname, content
+        self.env: Dict[str, object] = {dname: ("dict",)}
+        self.loaded: List[str] = []
+
+    def ev(self, x: ast.AST):
+        if isinstance(x, ast.Constant):
+            return x.value
+        if isinstance(x, ast.Name):
+            if x.id in self.env:
+                return self.env[x.id]
+            if x.id in self.prog.classes:
+                return ("class", x.id)
+            raise AnalysisError(f"dispatcher: cannot evaluate name `{x.id}`")
+        if isinstance(x, ast.Subscript) and isinstance(x.slice, ast.Constant):
+            b = self.ev(x.value)
+            if b == ("dict",):
+                if x.slice.value not in self.content:
+                    raise KeyError(x.slice.value)
+                return self.content[x.slice.value]
+        if isinstance(x, ast.Call):
+            nm = call_name(x)
+            if isinstance(x.func, ast.Attribute):
+                b = self.ev(x.func.value) if not (isinstance(x.func.value, ast.Name) and x.func.value.id not in self.env and x.func.value.id not in self.prog.classes) else None
+                if b == ("dict",) and nm == "keys":
+                    return ("keys",)
+                if b == ("dict",) and nm == "get" and x.args and isinstance(x.args[0], ast.Constant):
+                    return self.content.get(x.args[0].value, self.ev(x.args[1]) if len(x.args) > 1 else None)
+            if isinstance(x.func, ast.Name) and x.func.id in ("list", "set", "tuple") and len(x.args) == 1:
+                return self.ev(x.args[0])
+            f = self.ev(x.func) if isinstance(x.func, ast.Name) else None
+            if isinstance(f, tuple) and f[0] == "class" and not x.args and not x.keywords:
+                return ("obj", f[1])
+        if isinstance(x, ast.Compare) and len(x.ops) == 1:
+            op = x.ops[0]
+            if isinstance(op, (ast.In, ast.NotIn)):
+                item, cont = self.ev(x.left), self.ev(x.comparators[0])
+                if cont in (("dict",), ("keys",)):
+                    r = item in self.content
+                    return r if isinstance(op, ast.In) else not r
+            if isinstance(op, (ast.Eq, ast.NotEq)):
+                r = self.ev(x.left) == self.ev(x.comparators[0])
+                return r if isinstance(op, ast.Eq) else not r
+            if isinstance(op, (ast.Is, ast.IsNot)):
+                r = self.ev(x.left) is self.ev(x.comparators[0]) or self.ev(x.left) == self.ev(x.comparators[0])
+                return r if isinstance(op, ast.Is) else not r
+        if isinstance(x, ast.BoolOp):
+            vals = [self.ev(v) for v in x.values]
+            return all(vals) if isinstance(x.op, ast.And) else any(vals)
+        if isinstance(x, ast.UnaryOp) and isinstance(x.op, ast.Not):
+            return not self.ev(x.operand)
+        raise AnalysisError(f"dispatcher: unsupported expression `{unparse(x)}`")
+
+    def run(self, stmts) -> Optional[object]:
+        for st in stmts:
+            if isinstance(st, ast.If):
+                r = self.run(st.body if self.ev(st.test) else st.orelse)
+                if r is not None:
+                    return r
+            elif isinstance(st, ast.Assign) and len(st.targets) == 1 and isinstance(st.targets[0], ast.Name):
+                if st.targets[0].id == self.dname:
+                    continue
+                self.env[st.targets[0].id] = self.ev(st.value)
+            elif isinstance(st, ast.Raise):
+                raise _Raise()
+            elif isinstance(st, ast.Return):
+                return self.ev(st.value) if st.value is not None else ("none",)
+            elif isinstance(st, ast.Expr) and isinstance(st.value, ast.Call) and call_name(st.value) == "load" and isinstance(st.value.func, ast.Attribute) \
+                    and isinstance(st.value.func.value, ast.Name) and st.value.func.value.id in self.env:
+                self.loaded.append(st.value.func.value.id)
+            elif isinstance(st, ast.With):
+                r = self.run(st.body)
+                if r is not None:
+                    return r
+            elif isinstance(st, (ast.Expr, ast.Pass)):
+                continue
+            else:
+                continue        # not part of the decision ladder (checked by the load/return rule)
+        return None
 
 
 def _r3(ck: Checker, prog: Program, public: List[str]):
@@ -270,14 +317,20 @@ def _r3(ck: Checker, prog: Program, public: List[str]):
             dname = st.targets[0].id
     if dname is None:
         raise AnalysisError(f"{fq}: `attr_dict = json.load(f)` not found")
-    ladder = [st for st in f.node.body if isinstance(st, ast.If)]
     for cname in public:
         c = prog.cls(cname)
         env = _class_defaults(prog, c)
+        d = _Dispatch(prog, dname, env)
+        loaded_ok = None
         try:
-            got = _eval_ladder(ladder, env, dname)
+            res = d.run(f.node.body)
+            got = res[1] if isinstance(res, tuple) and res[0] == "obj" else str(res)
+            ret_name = None
+            loaded_ok = bool(d.loaded)
         except KeyError as e:
             got = f"KeyError({e})"
+        except _Raise:
+            got = "raise"
         if got == cname:
             ck.ok("C15.R3", fq, f"{cname} -> {got}", detail=f"keys {{{', '.join(f'{k}={v!r}' for k, v in env.items() if k.endswith('method') or k.startswith('method'))}}}")
         else:
@@ -324,61 +377,85 @@ def _r4(ck: Checker, prog: Program):
         ck.ok("C15.R4", save.qualname, norm_key(dumps[0]))
     else:
         ck.violation("C15.R4", save.qualname, "json.dump(self.attr_dict, f)", "save does not dump self.attr_dict", loc=save.loc())
-    # attr_dict: for name in self.attrs: attr = getattr(self, name); dict -> per value tolist; else tolist; attr_dict[name] = attr
+    # attr_dict: every name of self.attrs -> conv(getattr(self, name)); conv = per-value tolist inside dicts, tolist otherwise
+    from ..pathtable import PathTable, literals, flatten_cases, Leaf
+    from ..resolve import Resolver, canon
+    NAME = sp.Symbol("<name>", real=True)
+    SELF = sp.Symbol("self", real=True)
+    V = sp.Function("getattr")(SELF, NAME)
+    conv = [g for g in prog.funcs.values() if g.parent is ad and g.kind == "nested" and any(call_name(c) == "tolist" for c in calls_in(g.node))]
+    cases = None
+    why = "construction not recognised"
     loops = [st for st in ad.node.body if isinstance(st, ast.For)]
-    okk = False
-    detail = "loop over self.attrs not found"
-    if len(loops) == 1 and unparse(loops[0].iter) == "self.attrs" and isinstance(loops[0].target, ast.Name):
+    rets = [r for r in own_nodes(ad.node) if isinstance(r, ast.Return) and parent_of(r) is ad.node]
+    if len(loops) == 1 and unparse(loops[0].iter) == "self.attrs" and isinstance(loops[0].target, ast.Name) and len(rets) == 1 and isinstance(rets[0].value, ast.Name):
         lp = loops[0]
-        nm = lp.target.id
-        has_get = any(call_name(c) == "getattr" and len(c.args) == 2 and unparse(c.args[0]) == "self" and unparse(c.args[1]) == nm
-                      for c in calls_in(lp))
-        stores = [st for st in lp.body if isinstance(st, ast.Assign) and isinstance(st.targets[0], ast.Subscript)
-                  and unparse(st.targets[0].slice) == nm]
-        no_skip = not any(isinstance(x, (ast.Continue, ast.Break, ast.Return)) for x in ast.walk(lp))
-        # conversion helper uses tolist, applied in both branches
-        conv = [g for g in prog.funcs.values() if g.parent is ad and g.kind == "nested"]
-        conv_ok = bool(conv) and any(call_name(c) == "tolist" for c in calls_in(conv[0].node))
-        uses = [c for c in calls_in(lp) if conv and call_name(c) == conv[0].name]
-        dict_branch = any(isinstance(x, ast.DictComp) for x in ast.walk(lp))
-        rets = [r for r in own_nodes(ad.node) if isinstance(r, ast.Return) and parent_of(r) is ad.node]
-        okk = has_get and len(stores) == 1 and parent_of(stores[0]) is lp and no_skip and conv_ok and len(uses) >= 2 and dict_branch \
-            and len(rets) == 1 and isinstance(rets[0].value, ast.Name) and unparse(stores[0].targets[0].value) == rets[0].value.id
-        detail = (f"getattr={has_get} store-per-name={len(stores)} unconditional={no_skip} tolist-helper={conv_ok} "
-                  f"helper-uses={len(uses)} dict-branch={dict_branch}")
+        if any(isinstance(x, (ast.Continue, ast.Break, ast.Return)) for x in ast.walk(lp)):
+            why = "the loop over self.attrs can skip names"
+        else:
+            sub = PathTable(prog, ad.module, env={lp.target.id: NAME}, scope=ad).leaves(lp.body)
+            cases = []
+            for l in sub:
+                st_ = [(l.store_at[id(x[3])], x[2], x[3]) for x in l.events if x[0] == "store" and id(x[3]) in l.store_at]
+                if len(st_) != 1 or st_[0][0][1] != NAME or not isinstance(st_[0][2].targets[0].value, ast.Name) or st_[0][2].targets[0].value.id != rets[0].value.id:
+                    cases = None
+                    why = f"a path stores {[(str(a[0]), str(a[1])) for a in st_]}"
+                    break
+                cases += flatten_cases(literals(l), st_[0][1])
+    elif len(rets) == 1 and isinstance(rets[0].value, ast.DictComp):
+        dc = rets[0].value
+        if len(dc.generators) == 1 and not dc.generators[0].ifs and unparse(dc.generators[0].iter) == "self.attrs" and isinstance(dc.generators[0].target, ast.Name) \
+                and isinstance(dc.key, ast.Name) and dc.key.id == dc.generators[0].target.id:
+            T = PathTable(prog, ad.module, env={dc.key.id: NAME}, scope=ad)._T({dc.key.id: NAME})
+            cases = flatten_cases([], T.tr(dc.value))
+        else:
+            why = "the comprehension does not map every name of self.attrs"
+    okk = False
+    if cases is not None and len(conv) == 1:
+        t = sp.Function(conv[0].name)
+        is_dict = sp.Eq(sp.Function("truth")(sp.Function("isinstance")(V, sp.Symbol("dict", real=True))), sp.true, evaluate=False)
+        it0 = sp.Symbol("_it0")
+        item = sp.Function("item")
+        want_dict = sp.Function("comp")(sp.Function("kv")(item(it0, sp.Integer(0)), t(item(it0, sp.Integer(1)))), sp.Function("gen")(it0, sp.Function("items")(V)))
+        from ..pathtable import same_rel, negate
+        got_dict = [v for lits, v in cases if any(same_rel(x, is_dict) for x in lits)]
+        got_else = [v for lits, v in cases if any(same_rel(x, negate(is_dict)) for x in lits)]
+        okk = len(cases) == 2 and got_dict == [want_dict] and got_else == [t(V)]
+        why = f"cases {[(str(l_), str(v)) for l_, v in cases]}"
+        # the converter: tolist() of the value itself, the value unchanged when that fails
+        g = conv[0]
+        pn = g.params[0] if g.params else None
+        tl = [c for c in calls_in(g.node) if call_name(c) == "tolist"]
+        conv_ok = pn is not None and len(tl) == 1 and isinstance(tl[0].func.value, ast.Name) and tl[0].func.value.id == pn and not tl[0].args
+        outs = [unparse(r.value) for r in own_nodes(g.node) if isinstance(r, ast.Return)] + \
+               [unparse(st.value) for st in own_nodes(g.node) if isinstance(st, ast.Assign) and unparse(st.targets[0]) == pn]
+        conv_ok = conv_ok and set(outs) <= {pn, f"{pn}.tolist()"} and any(isinstance(x, ast.Try) for x in ast.walk(g.node))
+        if not conv_ok:
+            okk = False
+            why = f"the converter `{g.name}` yields {sorted(set(outs))}: arrays are not written as the exact list of their values"
+    detail = why
     if okk:
-        ck.ok("C15.R4", ad.qualname, "every name of attrs serialised (arrays via tolist, also inside dicts)", detail=detail)
+        ck.ok("C15.R4", ad.qualname, "every name of attrs serialised (arrays via tolist, also inside dicts)", detail=detail[:300])
     else:
         ck.violation("C15.R4", ad.qualname, "attr_dict serialisation", f"attr_dict does not serialise every attribute listed in attrs: {detail}", loc=ad.loc())
-    # load: a loop over the loaded dict whose body unconditionally does setattr(self, key, <value of key>)
+    # load: every (key, value) of the dict parsed from the file is set, unconditionally
     loops = [st for st in own_nodes(load.node) if isinstance(st, ast.For)]
     good = False
     detail = "loop over the loaded dict not found"
+    RL = Resolver(prog, load, inline=False)
     for lp in loops:
         it = lp.iter
-        base = it.func.value if isinstance(it, ast.Call) and call_name(it) in ("items", "keys") and isinstance(it.func, ast.Attribute) else it
-        if not isinstance(base, ast.Name):
+        if not (isinstance(it, ast.Call) and call_name(it) == "items" and isinstance(lp.target, ast.Tuple) and len(lp.target.elts) == 2):
             continue
-        dsrc = None
-        for st in own_nodes(load.node):
-            if isinstance(st, ast.Assign) and isinstance(st.targets[0], ast.Name) and st.targets[0].id == base.id:
-                dsrc = st.value
-        from_file = dsrc is not None and any(call_name(c) == "load" for c in calls_in(dsrc))
-        with_items = isinstance(it, ast.Call) and call_name(it) == "items"
-        if with_items and isinstance(lp.target, ast.Tuple) and len(lp.target.elts) == 2:
-            kname, vtxt = unparse(lp.target.elts[0]), [unparse(lp.target.elts[1])]
-        elif isinstance(lp.target, ast.Name):
-            kname, vtxt = lp.target.id, [f"{base.id}[{lp.target.id}]"]
-        else:
-            continue
-        direct = [st.value for st in lp.body if isinstance(st, ast.Expr) and isinstance(st.value, ast.Call) and call_name(st.value) == "setattr"]
-        body_ok = any(len(c.args) == 3 and unparse(c.args[0]) == "self" and unparse(c.args[1]) == kname and unparse(c.args[2]) in vtxt
-                      for c in direct)
-        first = lp.body.index(next(st for st in lp.body if isinstance(st, ast.Expr) and st.value in direct)) if direct else 0
-        no_skip = not any(isinstance(x, (ast.Continue, ast.Break, ast.Return, ast.Raise)) for st in lp.body[:first + 1] for x in ast.walk(st))
-        rebinds = any(isinstance(st, (ast.Assign, ast.AugAssign)) for st in lp.body[:first])
-        detail = f"iterates the dict loaded from the file={from_file}; unconditional setattr(self, key, value)={body_ok and no_skip and not rebinds}"
-        if from_file and body_ok and no_skip and not rebinds:
+        src = canon(RL.value(it.func.value, lp))
+        names = {getattr(getattr(a, "func", None), "__name__", "") for a in sp.preorder_traversal(src)}
+        from_file = ("load" in names or "loads" in names) and "open" in str(src) or bool(names & {"load", "loads"})
+        K, VV = sp.Symbol("<key>", real=True), sp.Symbol("<value>", real=True)
+        sub = PathTable(prog, load.module, env={unparse(lp.target.elts[0]): K, unparse(lp.target.elts[1]): VV}).leaves(lp.body)
+        want = sp.Function("setattr")(SELF, K, VV)
+        body_ok = len(sub) == 1 and sub[0].exit == "fall" and [e[2] for e in sub[0].events if e[0] == "call"] == [want]
+        detail = f"iterates the dict loaded from the file={from_file}; unconditional setattr(self, key, value)={body_ok}"
+        if from_file and body_ok:
             good = True
             break
     if good:
